@@ -306,3 +306,27 @@ func vhNoNilBytes(v reflect.Value) {
 		}
 	}
 }
+
+// Version negotiation of the hand-written Conn codec: for every call site's list of implemented versions and an
+// arbitrary advertised maximum, the negotiated version is the highest implemented one that does not exceed what
+// the broker advertised, and "no match" (-1) when even the lowest implemented version is above it - never a
+// version higher than the broker's.
+func VH_C04_LegacyNegotiate(site int) {
+	sites := [][]apiVersion{{v1, v2}, {v2, v5, v10}, {v1, v6}, {v2, v3, v7}, {v0, v1}, {v0, v1, v2}}
+	keys := []apiKey{joinGroup, fetch, metadata, produce, saslHandshake, createTopics}
+	supported := sites[site]
+	max := vhInt16("broker_max_version")
+	vm := apiVersionMap{keys[site]: ApiVersion{ApiKey: int16(keys[site]), MinVersion: 0, MaxVersion: max}}
+	got := vm.negotiate(keys[site], supported...)
+	want := apiVersion(-1)
+	for _, s := range supported {
+		if int16(s) <= max && s > want {
+			want = s
+		}
+	}
+	vhAssert(got == want, "negotiated-version-is-the-highest-implemented-one-not-above-the-brokers-maximum")
+	if got >= 0 {
+		vhAssert(int16(got) <= max, "negotiated-version-never-exceeds-what-the-broker-advertised")
+	}
+	vhReach("c04-legacy-negotiate")
+}
